@@ -33,13 +33,24 @@ func c13New(kind string) ap.CollectionInterface {
 }
 
 // pool of items with pairwise non-equivalent ids in mixed shapes
-func c13Pool(kind string) []ap.Item {
+func c13Pool(kind string, variant string) []ap.Item {
 	if kind == "IRIs" {
 		var out []ap.Item
 		for i := 0; i < 6; i++ {
 			out = append(out, ap.IRI(fmt.Sprintf("https://example.com/items/%d", i)))
 		}
 		return out
+	}
+	if variant == "val" {
+		// the same identities with the embedded members held by value instead of by pointer
+		return []ap.Item{
+			ap.Object{ID: "https://example.com/items/0", Type: ap.NoteType, Name: ap.DefaultNaturalLanguageValue("zero")},
+			ap.Actor{ID: "https://example.com/items/1", Type: ap.PersonType, PreferredUsername: ap.DefaultNaturalLanguageValue("one")},
+			ap.IRI("https://example.com/items/2"),
+			ap.Activity{ID: "https://example.com/items/3", Type: ap.CreateType, Actor: ap.IRI("https://example.com/items/2"), Object: ap.IRI("https://example.com/items/1")},
+			ap.Object{ID: "https://example.com/items/4", Type: ap.ArticleType, Summary: ap.DefaultNaturalLanguageValue("four")},
+			&ap.Object{ID: "https://example.com/items/5", Type: ap.ArticleType, Summary: ap.DefaultNaturalLanguageValue("five")},
+		}
 	}
 	return []ap.Item{
 		ap.IRI("https://example.com/items/0"),
@@ -49,6 +60,20 @@ func c13Pool(kind string) []ap.Item {
 		ap.IRI("https://other.example.org/items/4?x=1"),
 		&ap.Object{ID: "https://example.com/items/5", Type: ap.ArticleType, Summary: ap.DefaultNaturalLanguageValue("five")},
 	}
+}
+
+// c13KindVariants: every container with the pointer-form pool, the item-holding ones also with the value-form pool.
+func c13KindVariants() [][2]string {
+	var out [][2]string
+	for _, k := range c13Containers {
+		out = append(out, [2]string{k, ""})
+	}
+	for _, k := range c13Containers {
+		if k != "IRIs" {
+			out = append(out, [2]string{k, "val"})
+		}
+	}
+	return out
 }
 
 type c13Op struct {
@@ -180,7 +205,7 @@ func c13NonTrivial(hist []c13Op) bool {
 func TestC13(t *testing.T) {
 	r := ev.Open(t, "C13")
 	defer r.Close(t)
-	r.Rule("histories over a pool of items with pairwise non-equivalent ids in mixed shapes (IRI, Object, Actor, Activity): every history of Append(1 or 2 items)/Remove/Contains " +
+	r.Rule("histories over a pool of items with pairwise non-equivalent ids in mixed shapes (IRI, Object, Actor, Activity; held by pointer, and in the /val variant by value): every history of Append(1 or 2 items)/Remove/Contains " +
 		"up to the length bound over a 3-item pool for each of the 6 containers (Remove through ToItemCollection(container); not offered for IRIs whose item-list view is a copy), then random " +
 		"histories over a 6-item pool; after every step Count(), Collection() order and Contains() of every pool item are compared with a reference ordered set. " +
 		"non-trivial = a Remove after >= 2 appended items or a re-Append of an item seen before; distinct by container + op sequence")
@@ -188,8 +213,17 @@ func TestC13(t *testing.T) {
 	if r.WantLayer("histories", true) {
 		maxLen := r.Pick(4, 5)
 		total := 0
-		for _, kind := range c13Containers {
-			pool := c13Pool(kind)
+		for _, kv := range c13KindVariants() {
+			kind, variant := kv[0], kv[1]
+			pool := c13Pool(kind, variant)
+			maxLen := maxLen
+			if variant == "val" && !r.Thorough() {
+				maxLen--
+			}
+			tag := kind
+			if variant != "" {
+				tag = kind + "/" + variant
+			}
 			var ops []c13Op
 			for i := 0; i < 3; i++ {
 				ops = append(ops, c13Op{"append", []int{i}}, c13Op{"contains", []int{i}})
@@ -202,7 +236,7 @@ func TestC13(t *testing.T) {
 			var rec func(prefix []c13Op)
 			rec = func(prefix []c13Op) {
 				if len(prefix) > 0 {
-					cell := kind + ": " + c13OpsString(prefix)
+					cell := tag + ": " + c13OpsString(prefix)
 					if !r.Replaying() || strings.HasPrefix(r.ReplayCell(), cell) {
 						total++
 						c := c13New(kind)
@@ -210,16 +244,16 @@ func TestC13(t *testing.T) {
 						ok := true
 						for _, o := range prefix {
 							var key, detail string
-							m, key, detail = c13Step(kind, c, pool, m, o)
+							m, key, detail = c13Step(tag, c, pool, m, o)
 							if key != "" {
-								r.Report("histories", cell, key, "after "+cell+": "+detail, map[string]interface{}{"container": kind, "ops": c13OpsString(prefix)})
+								r.Report("histories", cell, key, "after "+cell+": "+detail, map[string]interface{}{"container": tag, "ops": c13OpsString(prefix)})
 								ok = false
 								break
 							}
 						}
-						r.Case(cell, c13NonTrivial(prefix), "histories container="+kind, fmt.Sprintf("histories len=%d", len(prefix)))
+						r.Case(cell, c13NonTrivial(prefix), "histories container="+tag, fmt.Sprintf("histories len=%d", len(prefix)))
 						if total%30011 == 0 {
-							r.Sample(cell, map[string]interface{}{"layer": "histories", "container": kind, "ops": c13OpsString(prefix), "final_members": fmt.Sprint(m)})
+							r.Sample(cell, map[string]interface{}{"layer": "histories", "container": tag, "ops": c13OpsString(prefix), "final_members": fmt.Sprint(m)})
 						}
 						if !ok {
 							return
@@ -241,8 +275,13 @@ func TestC13(t *testing.T) {
 	}
 
 	r.Rapid(t, "random", r.Pick(3000, 12000), func(t *rapid.T) {
-		kind := rapid.SampledFrom(c13Containers).Draw(t, "container")
-		pool := c13Pool(kind)
+		kv := rapid.SampledFrom(c13KindVariants()).Draw(t, "container")
+		kind, variant := kv[0], kv[1]
+		pool := c13Pool(kind, variant)
+		tag := kind
+		if variant != "" {
+			tag = kind + "/" + variant
+		}
 		c := c13New(kind)
 		var m c13Model
 		var hist []c13Op
@@ -262,16 +301,15 @@ func TestC13(t *testing.T) {
 			}
 			hist = append(hist, o)
 			var key, detail string
-			m, key, detail = c13Step(kind, c, pool, m, o)
+			m, key, detail = c13Step(tag, c, pool, m, o)
 			if key != "" {
-				r.Case(kind+": "+c13OpsString(hist), c13NonTrivial(hist), "random diverged")
-				failUnknown(r, t, "random", []keyed{{key, "after " + c13OpsString(hist) + ": " + detail}}, map[string]interface{}{"container": kind, "ops": c13OpsString(hist)})
+				r.Case(tag+": "+c13OpsString(hist), c13NonTrivial(hist), "random diverged")
+				failUnknown(r, t, "random", []keyed{{key, "after " + c13OpsString(hist) + ": " + detail}}, map[string]interface{}{"container": tag, "ops": c13OpsString(hist)})
 				return
 			}
 		}
-		canon := kind + ": " + c13OpsString(hist)
-		removedPos := ""
-		r.Case(canon, c13NonTrivial(hist), "random container="+kind, removedPos)
-		r.Sample(canon, map[string]interface{}{"layer": "random", "container": kind, "ops": c13OpsString(hist), "final_members": fmt.Sprint(m)})
+		canon := tag + ": " + c13OpsString(hist)
+		r.Case(canon, c13NonTrivial(hist), "random container="+tag)
+		r.Sample(canon, map[string]interface{}{"layer": "random", "container": tag, "ops": c13OpsString(hist), "final_members": fmt.Sprint(m)})
 	})
 }
